@@ -34,7 +34,7 @@ def recipe(c: Check):
     if st is not None:
         cnt = c.cov.get("coq_counters", {}).get("udp", {})
         # sanity of the check itself: the branches the property names must have been reached
-        need = dict(NPKT=50, NOVERSIZE=1, NDECERR=5)
+        need = dict(NPKT=50, NOVERSIZE=1, NDECERR=5, NFWD=3, NSYS=4, NIDLE=1, NSOCKETS=6)
         for k, v in need.items():
             if cnt.get(k, 0) < v and not c.broken:
                 c.broken.append(dict(kind="coverage", name="counter %s=%s below %s: a branch the property names was not exercised" % (k, cnt.get(k, 0), v),
@@ -44,6 +44,14 @@ def recipe(c: Check):
              "and around the 10240-byte frame bound (7.4-9 KB), arbitrary / uniform / alphabet-end bytes, nil / v4 / v4-in-16 / v6 / zoned / "
              "zero addresses, compared with Model.Udp (content, wire bytes = frame + concrete JSON text, accept/ErrMaxMsgLength) and "
              "udp.GetContent on valid and damaged base64 (foreign char, dropped char, CR/LF inserted, URL alphabet, no padding, trailing "
-             "bytes, trailing bits, '=' inside) compared with Model.Base64.b64_decode. distinct = distinct case text; non-trivial = non-empty payload/content",
+             "bytes, trailing bits, '=' inside) compared with Model.Base64.b64_decode. Part (ii) fwd: real udp.ForwardUserConn + udp.Forwarder "
+             "back to back through real WriteMsg/ReadMsg, 2-5 loopback user sockets on 127.0.3.x (two behind one IP), xor echo backend, bursts; "
+             "the model run on the light-load schedule must produce the observed backend log (socket <-> source port by first appearance) and "
+             "per-user reply logs. Part idle: the Forwarder's 30 s read deadline elapses for real, late datagrams to the old ports, new sockets "
+             "afterwards, compared with the model run containing ESockIdle. Part (iii) sys: in-process frps + real frpc, udp and sudp+visitor, "
+             "encryption/compression/tcpMux variants, work connection replaced mid-stream (server-side accessor / relay kill), evaluated by the "
+             "monitors C03_holds in Coq and in Go (payload equality, no duplicate, one socket one user, reply to the originating user only, "
+             "arrival at light load outside the replacement window, per-user order without replacement). "
+             "distinct = distinct case text; non-trivial = non-empty payload/content",
         assumptions=["encoding/json parser is an oracle constrained pointwise in C03_datagram_roundtrip (it inverts the concrete renderer on the text at hand); the renderer is compared byte for byte on every run",
                      "kernel UDP: loss under overload and ephemeral port reuse are outside the model; the harness runs at light load"])
